@@ -60,10 +60,20 @@ fn main() {
         }
     }
     // Panics of the code under test are caught per case; keep stderr quiet.
-    std::panic::set_hook(Box::new(|_| {}));
+    std::panic::set_hook(Box::new(|info| { if let Ok(mut l) = LAST_PANIC.lock() { *l = info.to_string(); } }));
     let thorough = tier == "thorough";
     let ctx = out::Ctx::new(&suite, seed, thorough, &out, replay);
-    match suite.as_str() {
+    let r = std::panic::catch_unwind(std::panic::AssertUnwindSafe(move || run_suite(&suite, ctx)));
+    if r.is_err() {
+        eprintln!("HARNESS-PANIC (outside any per-case guard): {}", LAST_PANIC.lock().map(|l| l.clone()).unwrap_or_default());
+        std::process::exit(101);
+    }
+}
+
+static LAST_PANIC: std::sync::Mutex<String> = std::sync::Mutex::new(String::new());
+
+fn run_suite(suite: &str, ctx: out::Ctx) {
+    match suite {
         "tlv" => suite_tlv::run(ctx),
         "fee" => suite_fee::run(ctx),
         "classify" => suite_classify::run(ctx),
